@@ -159,11 +159,20 @@ impl C20 {
             Err(pn) => out.push(Discrepancy { key: format!("C20/read-reference-encoding/{lay}/panic"), case: cj.clone(), detail: pn }),
         }
         // byte equality with the reference encoding, for some order of the input map entries
-        let mut perm = c.inputs.clone();
+        // (the input map is written in the hash map's iteration order: any order of its entries is accepted)
         let mut equal = bytes_r == bytes_z;
-        if !equal && perm.len() == 2 {
-            perm.swap(0, 1);
-            equal = wtns::encode_graph(&c.nodes, &c.signals, &perm) == bytes_z;
+        if !equal && c.inputs.len() <= 4 {
+            fn perms(v: &[(String, u32, u32)]) -> Vec<Vec<(String, u32, u32)>> {
+                if v.len() <= 1 { return vec![v.to_vec()]; }
+                let mut out = vec![];
+                for i in 0..v.len() {
+                    let mut rest = v.to_vec();
+                    let x = rest.remove(i);
+                    for mut p in perms(&rest) { p.insert(0, x.clone()); out.push(p); }
+                }
+                out
+            }
+            equal = perms(&c.inputs).iter().any(|p| wtns::encode_graph(&c.nodes, &c.signals, p) == bytes_z);
         }
         if !equal {
             out.push(Discrepancy { key: format!("C20/write-vs-reference-encoding/{lay}/bytes-differ"), case: cj, detail: format!("zerokit's container bytes differ from the reference encoding (top node {})", top_kind(&c.nodes)) });
@@ -262,6 +271,43 @@ fn assignments(l: &Layout, alpha: &[BigUint]) -> Vec<Vec<Vec<BigUint>>> {
                 out.push(vec![vec![x.clone()], vec![y.clone()]]);
             }
         }
+    }
+    out
+}
+
+/// Larger graphs of fixed shapes (enumerated, not sampled): chains of N nodes whose last node refers far back,
+/// for N around the 1-byte / 2-byte varint and u8 boundaries; constants of every encoded byte length class;
+/// three named inputs incl. a vector at a large offset; long names (metadata block above 127 bytes); output
+/// lists longer than the node list.
+fn big_shapes() -> Vec<Case> {
+    let mut out = vec![];
+    let consts: Vec<BigUint> = vec![big(0), big(255), big(256), pow2(240), pow2(248) - big(1), pow2(248), p() - big(1)];
+    for n in [6usize, 127, 128, 129, 255, 256, 257, 300, 16384, 16385] {
+        for (ci, c) in consts.iter().enumerate() {
+            if n > 300 && ci > 1 {
+                continue;
+            }
+            for last_op in [2u32, 0, 3, 9, 16, 18] {
+                let mut nodes = vec![GNode::Input(1), GNode::Input(2), GNode::Const(c.clone())];
+                for i in 3..n - 1 {
+                    let op = [2u32, 0, 3][i % 3];
+                    nodes.push(GNode::Duo(op, (i - 1) as u32, (i - 2) as u32));
+                }
+                nodes.push(GNode::Duo(last_op, 0, (n - 2) as u32));
+                let nn = nodes.len() as u32;
+                let signals: Vec<u32> = vec![nn - 1, 0, nn - 1, 2, nn - 2];
+                for (a, b) in [(big(1), big(2)), (p() - big(1), big(3))] {
+                    out.push(Case { layout: format!("chain-{n}"), nodes: nodes.clone(), signals: signals.clone(), inputs: vec![("a".into(), 1, 1), ("b".into(), 2, 1)], assign: vec![vec![a], vec![b]] });
+                }
+            }
+        }
+    }
+    // three named inputs, a vector of length 3 at a large offset, long names, many outputs
+    for off in [3u32, 130, 300] {
+        let long = "x".repeat(150);
+        let nodes = vec![GNode::Input(1), GNode::Input(off), GNode::Input(off + 1), GNode::Input(off + 2), GNode::Input(2), GNode::Duo(2, 1, 2), GNode::Duo(0, 5, 3), GNode::Duo(3, 6, 4), GNode::Tres(0, 0, 7, 4)];
+        let signals: Vec<u32> = (0..40).map(|k| (k * 7 % 9) as u32).collect();
+        out.push(Case { layout: format!("three-inputs-offset-{off}"), nodes, signals, inputs: vec![("first".into(), 1, 1), (long, off, 3), ("last".into(), 2, 1)], assign: vec![vec![big(0)], vec![big(5), p() - big(1), pow2(64)], vec![big(9)]] });
     }
     out
 }
@@ -369,10 +415,24 @@ impl Prop for C20 {
             }
         }
         ev.coverage.remove("_n");
+        // larger graphs of fixed shapes
+        let shapes = big_shapes();
+        let sres = par_map(&shapes, ncpu(), |_, c| {
+            let mut o = vec![];
+            let bytes = self.storage(c, &mut o);
+            self.evaluate(c, bytes.as_deref(), &mut o);
+            o
+        });
+        for o in sres {
+            findings.report_all(o);
+        }
+        graphs += shapes.len() as u64;
+        evals += shapes.len() as u64;
+        ev.set("large_shape_graphs", json!(shapes.len()));
         ev.set("evaluations", json!(evals));
         ev.set("programs", json!(graphs));
         ev.set("distinct_nontrivial", json!(graphs));
-        ev.set("rule", json!("program enumeration: base nodes (two inputs and one constant, five declared-input layouts incl. interleaved, vector, swapped with a gap, constant-one signal) followed by every possible 1st operation node (Neg, 19 binary operators x all operand references, TernCond x all references), every possible 2nd node, and (thorough) every 3rd node over a reduced operator set; each graph is (a) written by zerokit and read back, (b) written by an independent encoder and read by zerokit, (c) compared byte for byte with the independent encoding, (d) evaluated by graph::evaluate and by calc_witness (named inputs in both orders) on every assignment of the inputs over {0,1,2,p-1}^2 and compared with a direct reference interpretation; distinct_nontrivial = distinct graphs (each has at least one operation node)"));
+        ev.set("rule", json!("program enumeration: base nodes (two inputs and one constant, five declared-input layouts incl. interleaved, vector, swapped with a gap, constant-one signal) followed by every possible 1st operation node (Neg, 19 binary operators x all operand references, TernCond x all references), every possible 2nd node, and (thorough) every 3rd node over a reduced operator set; each graph is (a) written by zerokit and read back, (b) written by an independent encoder and read by zerokit, (c) compared byte for byte with the independent encoding, (d) evaluated by graph::evaluate and by calc_witness (named inputs in both orders) on every assignment of the inputs over {0,1,2,p-1}^2 and compared with a direct reference interpretation; additionally larger graphs of fixed shapes: chains of N nodes (N around 127/128, 255/256, 16384) whose last node refers back to node 0, constants of every encoded length class, three named inputs with a vector at offsets 3/130/300 and a 150-character name, 40-element output lists; distinct_nontrivial = distinct graphs (each has at least one operation node)"));
         ev.set("exhaustive", json!(true));
         ev.set("node_budget", json!(if q { "3 base + <= 2 operation nodes" } else { "3 base + <= 3 operation nodes (3rd over a reduced operator set, 2 layouts)" }));
         ev.assume("operator semantics are those of the C19 reference; Pow and Id are outside the Montgomery evaluator's documented domain");
